@@ -116,6 +116,7 @@ ExprToks(e, p) ==
                        \o <<Tk("RParen", "", p, "crparen")>>
     [] e.k = "Index" -> ExprToks(e.x, Sub(p, "x")) \o <<Tk("LBracket", "", p, "lbrack")>>
                         \o ExprToks(e.index, Sub(p, "index")) \o <<Tk("RBracket", "", p, "rbrack")>>
+    [] OTHER -> <<Tk("Malformed", "", p, "malformed")>>
 
 ExprListToks(es, p, f, i) ==
   IF i > Len(es) THEN <<>>
@@ -182,6 +183,7 @@ OpToks(op, p) ==
              THEN <<Kw("with", p, "with"), Tk("LParen", "", p, "lparen")>> \o PropsToks(op.props, p, 1)
                   \o <<Tk("RParen", "", p, "rparen")>>
              ELSE <<>>)
+    [] OTHER -> <<Tk("Malformed", "", p, "malformed")>>
 
 OpsToks(ops, p, i) == IF i > Len(ops) THEN <<>> ELSE OpToks(ops[i], SubI(p, "ops", i)) \o OpsToks(ops, p, i + 1)
 
@@ -191,6 +193,7 @@ StmtToks(s, p) ==
   CASE s.k = "Let" -> <<Kw("let", p, "kw"), IdTok(s.name, Sub(p, "name")), Tk("Assign", "", p, "assign")>>
                       \o ExprToks(s.x, Sub(p, "x"))
     [] s.k = "Tabular" -> TabToks(s, p)
+    [] OTHER -> <<Tk("Malformed", "", p, "malformed")>>
 
 \* A program is a sequence of items: statements and "Empty" (nothing between
 \* two semicolons).  Statement paths count only real statements, as the
@@ -207,6 +210,45 @@ Toks(items) == ProgToks(items, 1, 0)
 Statements(items) == SelectSeq(items, LAMBDA s : s.k # "Empty")
 
 Strip(toks) == [i \in DOMAIN toks |-> [k |-> toks[i].k, v |-> toks[i].v]]
+
+---------------------------------------------------------------------------
+(* C08: the tokens of a source are accounted for by the tree, in order.    *)
+(* Align compares the significant tokens of a statement (kind, value) with *)
+(* the print of its tree; the only tokens that may be absent from the      *)
+(* print are a comma directly before the closing parenthesis of a call     *)
+(* with arguments and a comma directly before `by` of a summarize with     *)
+(* aggregates.  Operator names are compared up to the documented synonyms. *)
+
+SynonymOf(v) == CASE v = "filter" -> "where" [] v = "order" -> "sort" [] v = "limit" -> "take" [] OTHER -> v
+SameTok(r, m, afterPipe) ==
+  /\ r.k = m.k
+  /\ IF afterPipe /\ r.k = "Identifier" THEN SynonymOf(r.v) = m.v ELSE r.v = m.v
+NoTok == Tk("", "", "", "")
+
+RECURSIVE Align(_, _, _, _)
+Align(rs, ms, afterPipe, prevM) ==
+  IF ms = <<>> THEN rs = <<>>
+  ELSE IF rs = <<>> THEN FALSE
+  ELSE IF SameTok(rs[1], ms[1], afterPipe) THEN Align(Tail(rs), Tail(ms), rs[1].k = "Pipe", ms[1])
+  ELSE /\ rs[1].k = "Comma"
+       /\ ms[1].r \in {"crparen", "sby"}
+       /\ ~(prevM.p = ms[1].p /\ prevM.r \in {"lparen", "kw"})
+       /\ Len(rs) >= 2
+       /\ SameTok(rs[2], ms[1], FALSE)
+       /\ Align(Tail(Tail(rs)), Tail(ms), FALSE, ms[1])
+
+RECURSIVE GroupsFrom(_, _, _)
+GroupsFrom(ts, i, cur) ==
+  IF i > Len(ts) THEN <<cur>>
+  ELSE IF ts[i].k = "Semi" THEN <<cur>> \o GroupsFrom(ts, i + 1, <<>>)
+  ELSE GroupsFrom(ts, i + 1, Append(cur, ts[i]))
+NonEmptyGroups(ts) == SelectSeq(GroupsFrom(ts, 1, <<>>), LAMBDA g : g # <<>>)
+
+\* toks: the significant tokens of the source; stmts: the statements Parse returned
+Accounts(toks, stmts) ==
+  LET gs == NonEmptyGroups(toks) IN
+  /\ Len(gs) = Len(stmts)
+  /\ \A i \in DOMAIN gs : Align(gs[i], StmtToks(stmts[i], ToString(i - 1)), FALSE, NoTok)
 
 ---------------------------------------------------------------------------
 (* Properties of Toks used by C08 / C10                                    *)
